@@ -18,7 +18,9 @@
       * nested function definitions (`onwait`, run later by the XML-RPC deferred machinery) are skipped;
       * statements are taken in source order whatever the branch (over-approximation of "comes after");
       * for a `try`, the steps of the `except` handlers are emitted BEFORE those of the body: a handler that raises means
-        the attempt of the body failed (callee assumed to fail atomically).
+        the attempt of the body failed (callee assumed to fail atomically);
+      * a `_raise` in a handler that catches exactly the exception class `FiniteStateMachine.on_restart` / `on_shutdown`
+        raises without Master (read in statemachine.py), around a call of that effect, is the check `masterKnown`.
 
     generate_rpc(repo, outdir) -> list of (anchor, ok, detail); the file is rewritten only when its content changes. """
 import os, ast
@@ -88,18 +90,19 @@ def state_list(node):
 
 
 class Ctx:
-    def __init__(self, fn, stack=(), test=None, handler_of=None, guarded=False):
-        self.fn, self.stack, self.test, self.handler_of, self.guarded = fn, stack, test, handler_of, guarded
+    def __init__(self, fn, stack=(), test=None, handler_of=None, guarded=False, catches=()):
+        self.fn, self.stack, self.test, self.handler_of, self.guarded, self.catches = fn, stack, test, handler_of, guarded, catches
 
     def but(self, **kw):
-        c = Ctx(self.fn, self.stack, self.test, self.handler_of, self.guarded)
+        c = Ctx(self.fn, self.stack, self.test, self.handler_of, self.guarded, self.catches)
         for k, v in kw.items(): setattr(c, k, v)
         return c
 
 
 class Walker:
-    def __init__(self, methods, bad_state_fault):
+    def __init__(self, methods, bad_state_fault, crashes=()):
         self.methods = methods; self.bad_state_fault = bad_state_fault; self.steps = []
+        self.crashes = dict(crashes)          # effect -> exception class it raises when no Master is known
 
     def emit(self, step):
         if not self.steps or self.steps[-1] != step:      # consecutive duplicates carry no information
@@ -111,6 +114,11 @@ class Walker:
             if h in HELPER_CHECK: return HELPER_CHECK[h]
         if ctx.handler_of is not None:
             body = ' '.join(ast.unparse(s) for s in ctx.handler_of)
+            # `try: fsm.on_restart() except RuntimeError: _raise(...)`: the handler catches exactly the exception the
+            # effect raises when no Master is known -> the raise is the check "a Master is known"
+            called = {'.'.join(d.split('.')[2:]) for st in ctx.handler_of for n in ast.walk(st)
+                      if isinstance(n, ast.Call) for d in [dotted(n.func)] if d and d.startswith('self.supvisors.')}
+            if any(e in called and x in ctx.catches for e, x in self.crashes.items()): return 'masterKnown'
             if 'int(numprocs)' in body: return 'numprocs'
             if 'update_extra_args' in body: return 'namespec'
             return 'data'
@@ -204,7 +212,8 @@ class Walker:
             elif isinstance(st, ast.Try):
                 catches = ' '.join(ast.unparse(h.type) if h.type is not None else 'BaseException' for h in st.handlers)
                 for h in st.handlers:
-                    self.stmts(h.body, ctx.but(test=None, handler_of=st.body))
+                    types = [] if h.type is None else [dotted(t) for t in (h.type.elts if isinstance(h.type, ast.Tuple) else [h.type])]
+                    self.stmts(h.body, ctx.but(test=None, handler_of=st.body, catches=tuple(t for t in types if t)))
                 self.stmts(st.body, ctx.but(guarded=ctx.guarded or 'KeyError' in catches or 'Exception' in catches))
                 self.stmts(st.orelse, ctx); self.stmts(st.finalbody, ctx)
             elif isinstance(st, (ast.For, ast.While)):
@@ -317,7 +326,7 @@ def generate_rpc(repo, outdir):
     for name, fn in methods.items():
         if name.startswith('_'): continue
         if any(dotted(d) == 'property' for d in fn.decorator_list): continue      # `logger` is not an XML-RPC
-        w = Walker(methods, bad_state_fault)
+        w = Walker(methods, bad_state_fault, crashes)
         try:
             w.stmts(fn.body, Ctx(fn))
             lean = [lean_step(s) for s in w.steps]
